@@ -51,3 +51,4 @@ pub mod sema;
 pub mod lspmodel;
 pub mod lspclient;
 pub mod modelws;
+pub mod tgen;
